@@ -86,6 +86,13 @@ func phasePlans(c *Chooser, n int, tunnel int, fcOn bool) []*RPCPlan {
 				// ... and then sends headers, not having noticed that the RPC is over
 				p.Handler = []Op{{Kind: OpRecv}, {Kind: OpAwaitCtx}, {Kind: OpSendHeader, MD: metadata.Pairs("late-header", "after-the-end")}, {Kind: OpReturn, St: nil}}
 			}
+			if (len(p.ReqSizes)+len(p.RespSizes))%2 == 1 && p.ID%2 == 0 {
+				// ... or carries on for a while although its context has ended:
+				// the tunnel's termination (Serve, Stop, the accepting side's
+				// call) cancels handlers, it does not wait for them
+				p.Handler = []Op{{Kind: OpRecv}, {Kind: OpAwaitCtx}, {Kind: OpPause, N: 940, Insist: true}, {Kind: OpReturn, St: nil}}
+				p.stubborn = true
+			}
 			p.HandlerSend = nil
 			p.neverEnds = true
 			// without a fault only the caller's deadline ends this RPC
@@ -218,6 +225,7 @@ func runTeardown(w *World, rs *RunSpec) {
 	points := w.frameCount
 	w.frameTriggers = nil // the fault belongs to the workload phase only
 	w.DrainAndProbe()
+	w.OpenGate(940) // handlers that outlived their cancellation may finish now
 	if t.Sibling != nil && cause == CauseClose {
 		select {
 		case <-t.Sibling.Done():
